@@ -259,6 +259,23 @@ Definition positional (c : N) (st : state) : res (option str) :=
     if i <? zlen (params st) then v <- idx (params st) i ;; Ok (Some v) else Ok None
   else Ok None.
 
+(* ---------------------------------------------------------------- cutElemSubscript *)
+(* cutElemSubscript *)
+Definition cut_elem_subscript (valid_name : str -> bool) (arg : str) : res (option (str * str)) :=
+  match index_byte 91 arg with            (* '[' *)
+  | None => Ok None
+  | Some i0 =>
+      let i := Z.of_nat i0 in
+      let has_suffix := match rev arg with c :: _ => N.eqb c 93 | [] => false end in   (* "]" *)
+      if (0 <? i) && has_suffix then
+        name <- slice_to arg i ;;
+        if valid_name name then
+          sub <- slice arg (i + 1) (zlen arg - 1) ;;
+          Ok (Some (name, sub))
+        else Ok None
+      else Ok None
+  end.
+
 Definition MAXI : Z := 9223372036854775807.
 Definition MINI : Z := -9223372036854775808.
 
@@ -274,6 +291,10 @@ Variable index_rune : str -> N -> Z.     (* strings.IndexRune: byte offset or -1
 Variable valid_name : str -> bool.       (* syntax.ValidName *)
 (* Runner.changeDir(path) from r.Dir: Some newdir on success, None = status 1 *)
 Variable change_dir : str -> str -> option str.
+(* expand.Format(cfg, arg, nil) as used by echo -e: the expanded string *)
+Variable format : str -> str.
+(* filepath.EvalSymlinks: None = error *)
+Variable eval_symlinks : str -> option str.
 
 (* ---------------------------------------------------------------- shift *)
 Definition shift_n (st : state) (n : Z) : res bres :=
@@ -527,6 +548,93 @@ Definition bi_getopts_gen (fixed : bool) (args : list str) (st : state) : res br
 Definition bi_getopts := bi_getopts_gen true.
 Definition bi_getopts_prefix := bi_getopts_gen false.
 
+(* ---------------------------------------------------------------- echo / pwd / unset *)
+(* echoOpts: for len(args) > 0 { switch args[0] {...}; args = args[1:] } ; Err = out of fuel *)
+Fixpoint echo_opts (fuel : nat) (args : list str) (newline doexpand : bool) : res (list str * bool * bool) :=
+  match fuel with
+  | O => OutOfFuel
+  | S f =>
+      if 0 <? zlen args then
+        a0 <- idx args 0 ;;
+        if str_eqb a0 (b "-n") then r <- slice_from args 1 ;; echo_opts f r false doexpand
+        else if str_eqb a0 (b "-e") then r <- slice_from args 1 ;; echo_opts f r newline true
+        else if str_eqb a0 (b "-E") then r <- slice_from args 1 ;; echo_opts f r newline doexpand
+        else Ok (args, newline, doexpand)
+      else Ok (args, newline, doexpand)
+  end.
+
+Definition bi_echo (args : list str) (st : state) : res bres :=
+  r <- echo_opts (S (length args)) args true false ;;
+  let '(rest, newline, doexpand) := r in
+  let words := if doexpand then map format rest else rest in
+  ret_out st 0 (join_sp words ++ (if newline then [NL] else [])).
+
+(* for len(args) > 0 { switch args[0] { "-L", "-P", default: fail }; args = args[1:] }; Some evalSymlinks / None = status 2 *)
+Fixpoint pwd_opts (fuel : nat) (args : list str) (evalsym : bool) : res (option bool) :=
+  match fuel with
+  | O => OutOfFuel
+  | S f =>
+      if 0 <? zlen args then
+        a0 <- idx args 0 ;;
+        if str_eqb a0 (b "-L") then r <- slice_from args 1 ;; pwd_opts f r false
+        else if str_eqb a0 (b "-P") then r <- slice_from args 1 ;; pwd_opts f r true
+        else Ok None
+      else Ok (Some evalsym)
+  end.
+
+(* the fatal exit of a failing EvalSymlinks is reported as status 1 with FExit *)
+Definition bi_pwd (args : list str) (st : state) : res bres :=
+  r <- pwd_opts (S (length args)) args false ;;
+  match r with
+  | None => ret st 2
+  | Some evalsym =>
+      let pwd := env_get st (b "PWD") in
+      if evalsym then
+        match eval_symlinks pwd with
+        | Some p => ret_out st 0 (p ++ [NL])
+        | None => Ok {| r_st := st; r_code := 1; r_flow := FExit; r_out := [] |}
+        end
+      else ret_out st 0 (pwd ++ [NL])
+  end.
+
+(* unsetOpts: for i, arg := range args { "-v" / "-f" / default: args = args[i:]; break };
+   result: the arguments that remain, vars, funcs *)
+Fixpoint unset_opts (all : list str) (l : list str) (i : Z) (vars_ funcs : bool) : res (list str * bool * bool) :=
+  match l with
+  | [] => Ok (all, vars_, funcs)                 (* only flags: args is not re-sliced *)
+  | a :: r =>
+      if str_eqb a (b "-v") then unset_opts all r (i + 1) vars_ false
+      else if str_eqb a (b "-f") then unset_opts all r (i + 1) false funcs
+      else rest <- slice_from all i ;; Ok (rest, vars_, funcs)
+  end.
+
+(* the loop over the remaining arguments, for scalar variables (the model has no arrays, functions) *)
+Fixpoint unset_names (l : list str) (vars_ : bool) (st : state) : res state :=
+  match l with
+  | [] => Ok st
+  | a :: r =>
+      c <- cut_elem_subscript valid_name a ;;
+      match c with
+      | Some (name, sub) =>
+          if vars_ then
+            (* unsetElem: a set scalar is deleted via subscript 0 only; an unset name is a no-op *)
+            match var_get (vars st) name with
+            | Some _ => if str_eqb sub (b "0") then unset_names r vars_ (set_vars st (var_del (vars st) name))
+                        else unset_names r vars_ st
+            | None => unset_names r vars_ st
+            end
+          else unset_names r vars_ st
+      | None =>
+          if vars_ then unset_names r vars_ (set_vars st (var_del (vars st) a)) else unset_names r vars_ st
+      end
+  end.
+
+Definition bi_unset (args : list str) (st : state) : res bres :=
+  o <- unset_opts args args 0 true true ;;
+  let '(rest, vars_, funcs) := o in
+  st' <- unset_names rest vars_ st ;;
+  ret st' 0.
+
 (* ---------------------------------------------------------------- calls and histories *)
 Inductive lstmt :=
 | LObs (tag : str)                         (* __obs TAG "$?" *)
@@ -605,7 +713,10 @@ Inductive call :=
 | CReturn (args : list str)       (* return outside of a function *)
 | CLoop (cont : bool) (args : list str)    (* the nested-loop program, see loop_prog *)
 | CFunc (args : list str)         (* f() { return ARGS; __obs B "$?"; }; f *)
-| CExit (args : list str).
+| CExit (args : list str)
+| CEcho (args : list str)
+| CPwd (args : list str)
+| CUnset (args : list str).
 
 Definition loop_prog (cont : bool) (args : list str) : lstmt :=
   LFor 2 [ LFor 2 [ LObs (b "A"); LBrk cont args; LObs (b "B") ]; LObs (b "C") ].
@@ -662,6 +773,14 @@ Definition run_call (c : call) (st : state) : res (state * list (list str) * opt
       | FExit => Ok (r_st r, [], Some (r_code r))
       | _ => fin r
       end
+  | CEcho args => r <- bi_echo args st ;; fin r
+  | CPwd args =>
+      r <- bi_pwd args st ;;
+      match r_flow r with
+      | FExit => Ok (r_st r, [], Some (r_code r))
+      | _ => fin r
+      end
+  | CUnset args => r <- bi_unset args st ;; fin r
   end.
 
 (* a history: the calls of a program in order; stops at exit *)
@@ -691,23 +810,7 @@ Definition init_state (d : str) : state :=
 Definition inv (st : state) : Prop :=
   0 <= og_arg st /\ 0 <= og_rune st /\ 1 <= zlen (dirstack st).
 
-(* ---------------------------------------------------------------- unset 'a[i]' *)
-(* cutElemSubscript *)
-Definition cut_elem_subscript (valid_name : str -> bool) (arg : str) : res (option (str * str)) :=
-  match index_byte 91 arg with            (* '[' *)
-  | None => Ok None
-  | Some i0 =>
-      let i := Z.of_nat i0 in
-      let has_suffix := match rev arg with c :: _ => N.eqb c 93 | [] => false end in   (* "]" *)
-      if (0 <? i) && has_suffix then
-        name <- slice_to arg i ;;
-        if valid_name name then
-          sub <- slice arg (i + 1) (zlen arg - 1) ;;
-          Ok (Some (name, sub))
-        else Ok None
-      else Ok None
-  end.
-
+(* ---------------------------------------------------------------- unset 'a[i]' (cutElemSubscript is above) *)
 (* slices.BinarySearch on a sorted []int: the first position whose element is >= k *)
 Fixpoint lower_bound (l : list Z) (k : Z) : Z :=
   match l with
@@ -843,4 +946,5 @@ Definition change_dir_c (fs : list str) (d path : str) : option str :=
   end.
 
 Definition run_calls_c (fs : list str) :=
-  run_calls atoi_c atoi64_c itoa_c runes_of_c str_of_runes_c index_rune_c valid_name_c (change_dir_c fs).
+  run_calls atoi_c atoi64_c itoa_c runes_of_c str_of_runes_c index_rune_c valid_name_c (change_dir_c fs)
+            (fun s => s) (fun s => Some s).
